@@ -189,6 +189,16 @@ func C08(sp *spec.Spec, ex *rt.Exchange) *Verdict {
 		return v
 	}
 	oc := c.Outcome
+	if oc != nil && oc.Kind == "result" && m.Result != nil {
+		// the scripted result must satisfy the design (the case generator's duty): otherwise nothing is decided
+		var viol []Violation
+		var und []string
+		Validate(sp, m.Result.Type, m.Result.Val, oc.Result, "", &viol, &und, 0)
+		if len(viol) > 0 || len(und) > 0 {
+			v.Inconclusive = "case generator produced a result that does not satisfy the design"
+			return v
+		}
+	}
 	if ex.Panic != "" {
 		tags := ExplainResult(sp, m, oc.Result)
 		if requiredObjectOutsideView(sp, ut, oc.View, 0) {
